@@ -26,8 +26,8 @@ import (
 
 // Op is one call on the node.
 type Op struct {
-	K string `json:"op"`             // confirm | propose | vote | justify | enforce
-	N int    `json:"node"`           // label of the proposal concerned
+	K string `json:"op"`              // confirm | propose | vote | justify | enforce
+	N int    `json:"node"`            // label of the proposal concerned
 	V int    `json:"voter,omitempty"` // vote: validator index (0 = the node itself)
 	Q int    `json:"signers,omitempty"`
 	C bool   `json:"commit_info,omitempty"` // propose: the justify carries a commit state id
@@ -254,6 +254,8 @@ type Model struct {
 	arr        map[int]arrival
 	viaMsg     map[int]bool         // proposal message processed and the proposal accepted then or before
 	voters     map[int]map[int]bool // label -> validators (not the node itself) whose vote call returned nil
+	signers    map[int]map[int]bool // label -> every validator whose signature for it the node was given (votes taken, justify lists)
+	certified  map[int]bool         // proposals for which the node was shown a certificate (or a rollback / the start state named them)
 	highView   int64
 	pmView     int64
 	stats      map[string]int
@@ -261,7 +263,12 @@ type Model struct {
 
 func newModel(c *Case, w *World) *Model {
 	m := &Model{c: c, root: 0, accepted: map[int]bool{}, everInTree: map[int]bool{}, arr: map[int]arrival{}, viaMsg: map[int]bool{},
-		voters: map[int]map[int]bool{}, stats: map[string]int{}}
+		voters: map[int]map[int]bool{}, signers: map[int]map[int]bool{}, certified: map[int]bool{}, stats: map[string]int{}}
+	if hl, ok := labelOf(w.tree.HighQC); ok {
+		for x := hl; x >= 0; x = c.Par[x] {
+			m.certified[x] = true
+		}
+	}
 	for l := 1; l <= c.Init.Pre; l++ {
 		m.accepted[l] = true
 		m.everInTree[l] = true
@@ -506,6 +513,10 @@ func (m *Model) audit(w *World, step int, op *Op, newly bool, callErr error, bef
 		}
 		if pl.ptr != t.HighQC {
 			return fail("qctree|highqc|moved-to-a-copy", fmt.Sprintf("HighQC moved to an object for %s that is not the stored one", name(hl)))
+		}
+		// "highest CERTIFIED": the marker only moves to a proposal the node has seen certified
+		if !m.certified[hl] {
+			return fail("qctree|highqc|moved-to-a-proposal-nothing-certified", fmt.Sprintf("HighQC moved to %s during %v; no justify, vote quorum, UpdateJustifyQcStatus or rollback named it", name(hl), op))
 		}
 		m.stats["highqc.moved"]++
 	}
